@@ -6,7 +6,7 @@ ID = "C13"
 THEOREMS = [("FlatModel.Props.C13", t) for t in ("FC.C13.readSlice_get", "FC.C13.readSlice_backed_iter", "FC.C13.len_iter_agree",
                                                   "FC.C13.readColumns_get", "FC.C13.readColumns_backed_iter",
                                                   "FC.C13.readColumns_len_iter_agree", "FC.C13.stack_get")]
-PROFILES = {"quick": ["checked"], "thorough": ["checked", "wrapping"], "search": ["checked"]}
+PROFILES = {"quick": ["checked", "wrapping"], "thorough": ["checked", "wrapping"], "search": ["checked"]}
 RULE = ("regions holding several adjacent slice / row items; every item, every position i in 0..len+3 and a few huge i, both "
         "representations (region-backed, borrowed from the owned Vec), on slice/columns entries and FlatStacks over them; oracle: "
         "the i-th element for i < len, a panic otherwise; len / is_empty / iter / ExactSizeIterator::len agree, and so do the other "
